@@ -294,6 +294,10 @@ pub fn replay_rows<P: PT, C: Coll<P>>(
             continue;
         }
         if !cache.contains_key(&key) {
+            // rows arrive grouped by state: a small window of rebuilt states is enough
+            if cache.len() > 2048 {
+                cache.clear();
+            }
             let Some(c) = build_state::<P, C>(&row["h"], ctx) else {
                 cache.insert(key.clone(), None);
                 unsupported_paths.insert(key.clone());
